@@ -255,6 +255,15 @@ def run_case(ctx, case):
     except Exception as e:
         o.cls = "read-raises"
         return o.viol("read|second-read-raises|%s" % type(e).__name__, "the second read of the same file with the same decryptor objects raised %r" % e)
+    # ... and a third time without MAC checking: keys, blocks and content do not depend on it
+    try:
+        r3 = Bec2File.read_file(io.StringIO(text), decoy + [mk(n) for n in decs], False)
+        if r3.session_key != r.session_key or FX.view(r3.bf3file) != FX.view(r.bf3file) or \
+                [(t, type(b).__name__) for t, b in r3.auth_blocks.items()] != [(t, type(b).__name__) for t, b in r.auth_blocks.items()]:
+            o.viol("read|no-mac-check-differs", "reading the same file without MAC checking gives a different result")
+    except Exception as e:
+        o.cls = "read-raises"
+        return o.viol("read|no-mac-check-raises|%s" % type(e).__name__, "reading the same file without MAC checking raised %r" % e)
     got_blocks = list(r.auth_blocks.values())
     if list(r.auth_blocks.keys()) != [b.tag for b in got_blocks] or len(got_blocks) != len(order):
         o.viol("read|block-list", "auth blocks read: %r, written order %r" % (got_blocks, order))
